@@ -294,11 +294,12 @@ func run(c *core.Ctx) error {
 	in := &instance{
 		ValsLo: 0, ValsHi: 2, MaxLen: 2, Kinds: allKinds, RangeKinds: allRangeKinds,
 		Bounds: "-1..2", Probes: "-2..3", Counts: "-1..3", Preds: []string{"pos", "one", "lt5"}, Maps: []string{"inc"},
-		Inits: "{1}", EndlessTake: 3,
+		Inits: "{1}", EndlessTake: 5,
 	}
 	if c.Thorough() {
 		in.MaxLen, in.Bounds, in.Probes, in.Counts = 3, "-2..3", "-3..4", "-1..4"
 		in.Preds, in.Maps, in.Inits = []string{"pos", "one", "lt5", "neg"}, []string{"inc", "dbl"}, "{0, 1}"
+		in.EndlessTake = 6
 	}
 
 	// ---- 0. observe the iteration order of every set / map of the instance (input of the spec)
